@@ -175,13 +175,13 @@ Qed.
 (* the only place that looks inside the anchorizer *)
 Lemma anchorize_inert slug iss header iss' id :
   (forall h, forallb inert_byte (slug h) = true) ->
-  anchorize slug iss header = Ok (iss', id) -> forallb inert_byte id = true.
+  h_anchorize slug iss header = Ok (iss', id) -> forallb inert_byte id = true.
 Proof.
-  intros SL H. unfold anchorize in H.
-  destruct (uniq_loop _ _ _ _) as [a| |] eqn:UL; cbn [bind] in H; try discriminate H.
+  intros SL H. unfold h_anchorize in H.
+  destruct (h_uniq_loop _ _ _ _) as [a| |] eqn:UL; cbn [bind] in H; try discriminate H.
   injection H as _ <-. pose proof (SL header) as Hid. revert UL Hid.
   generalize (slug header) as s, 0%N as k, (S (List.length iss)) as fuel. clear.
-  intros s k fuel; revert k. induction fuel as [|f IH]; intros k H Hid; cbn [uniq_loop] in H; [discriminate|].
+  intros s k fuel; revert k. induction fuel as [|f IH]; intros k H Hid; cbn [h_uniq_loop] in H; [discriminate|].
   destruct (existsb _ iss).
   - eapply IH; eauto.
   - injection H as <-. destruct (k =? 0)%N; [exact Hid|].
@@ -206,7 +206,7 @@ Proof.
   | v_ok (Heading _ _) = true =>
     apply heading_levels in V;
     destruct (o_header_ids o) as [prefix|];
-    [ destruct (anchorize _ _ _) as [[iss' id]| |] eqn:AN; cbn [bind] in H; try discriminate H;
+    [ destruct (h_anchorize _ _ _) as [[iss' id]| |] eqn:AN; cbn [bind] in H; try discriminate H;
       apply anchorize_inert in AN; [|exact SL];
       brk H; okinv3 H; expose; rewrite AN;
       repeat (destruct V as [-> | V]; [fin|]); subst level; fin
@@ -404,9 +404,9 @@ Proof.
   intros U H. destruct v;
   unfold enter, sp_attr in H; cbv beta iota zeta in H; try rewrite U in H; cbn [negb] in H.
   all: lazymatch type of H with
-  | context [anchorize] =>
+  | context [h_anchorize] =>
     destruct (o_header_ids o) as [prefix|];
-    [ destruct (anchorize _ _ _) as [[iss' id]| |]; cbn [bind] in H; try discriminate H |];
+    [ destruct (h_anchorize _ _ _) as [[iss' id]| |]; cbn [bind] in H; try discriminate H |];
     okinv3 H; reflexivity
   | _ => brk H; okinv3 H; reflexivity
   end.
